@@ -20,6 +20,10 @@ pub struct AnsSpec {
     pub pre: Vec<u8>,
     pub t: u64,
     pub fudge: Option<u16>,
+    /// before this answer is signed, a signing attempt into a buffer that is
+    /// this many octets too small fails (the caller then retries, like the
+    /// middleware does with a truncated response)
+    pub failed_attempt_short_by: Option<usize>,
 }
 
 /// Server side of a sequence; `via_txn` converts a `ServerTransaction` into a
@@ -45,6 +49,13 @@ where
         Ok(Some(mut seq)) => {
             let mut out = vec![];
             for a in answers {
+                if let Some(short) = a.failed_attempt_short_by {
+                    let need = a.pre.len() + seq.key().compose_len() as usize;
+                    let mut b = builder_from(&a.pre, need - 1 - short.min(need - 1 - a.pre.len()));
+                    let r = seq.answer_with_fudge(&mut b, t48(a.t), a.fudge.unwrap_or(300));
+                    vensure!(r.is_err(), "server-sequence:tsig-pushed-beyond-capacity", "need {need}");
+                    vensure!(b.as_slice() == &a.pre[..], "server-sequence:failed-signing-changed-message", "{} vs {}", hex(b.as_slice()), hex(&a.pre));
+                }
                 let mut b = builder_from(&a.pre, usize::MAX);
                 let r = match a.fudge {
                     Some(f) => seq.answer_with_fudge(&mut b, t48(a.t), f),
@@ -173,7 +184,8 @@ pub fn run_seq(data: &[u8], ctx: &mut Ctx) -> CaseResult {
         for i in 0..n {
             let t = if chance(u, 200) { t_sign.saturating_add(i as u64).min(rs::T48_MAX) } else { gen_time(u) };
             let fudge = if chance(u, 128) { None } else { Some(gen_fudge(u)) };
-            answers.push(AnsSpec { pre: answer_msg(u, i, id, &pool), t, fudge });
+            let failed_attempt_short_by = if chance(u, 40) { Some(pick(u, 3)) } else { None };
+            answers.push(AnsSpec { pre: answer_msg(u, i, id, &pool), t, fudge, failed_attempt_short_by });
         }
         ctx.sample(|| format!("seq/A client[{}] server[{}] store {kind:?} via_txn {via_txn} {n} signed answers", kc.show(), ks.show()));
         if n >= 2 {
@@ -194,6 +206,14 @@ pub fn run_seq(data: &[u8], ctx: &mut Ctx) -> CaseResult {
             // conformance with the running digest
             let what: &'static str = if i == 0 { "seq-first" } else { "seq-subsequent" };
             let prior = refseq.prior_mac.clone();
+            let what: &'static str = match (a.failed_attempt_short_by.is_some(), i == 0) {
+                (false, _) => what,
+                (true, true) => "seq-first-after-failed-push",
+                (true, false) => "seq-subsequent-after-failed-push",
+            };
+            if a.failed_attempt_short_by.is_some() {
+                ctx.class("sequence-answer-after-failed-push");
+            }
             let mac = conform(&a.pre, s, &Want { what, signer: &ks, prior: Prior::Mac(&prior), between: &[], timers_only: i > 0, time: a.t, fudge: a.fudge.unwrap_or(300), error: 0, other: &[] })?;
             refseq.advance(&mac);
             let mut m = Message::from_octets(s.clone()).unwrap();
